@@ -272,6 +272,15 @@ func judgeStepCase(c stepCase, rec *hx.Rec, formSeen []int32) string {
 	if m > 64 {
 		classes = append(classes, "core_gt_64")
 	}
+	if m > 65536 {
+		classes = append(classes, "core_gt_65536")
+	}
+	if c.Steps >= 1500 {
+		classes = append(classes, "run_ge_1500_cycles")
+	}
+	if c.Cfg.P > 256 {
+		classes = append(classes, "process_limit_gt_256")
+	}
 	if rec != nil {
 		h := hx.NewHash()
 		h.Int(m)
